@@ -16,7 +16,12 @@ fn gen_extra(rng: &mut Rng, lua: bool) -> Argv {
     let k = gen::key(rng);
     let k2 = gen::key(rng);
     let v = gen::pick(rng, &["a", "10", "", "x y", "-1", "9223372036854775807"]);
-    match rng.gen_range(0..34) {
+    match rng.gen_range(0..38) {
+        // every command classified read-only, with arguments that mean something (WAIT with replicas and a timeout ..)
+        34 => vec![b("WAIT"), gen::pick(rng, &["0", "1", "2", "x"]), gen::pick(rng, &["0", "1", "100", "5000", "100000000", "-1"])],
+        35 => vec![b(["TIME", "DBSIZE", "RANDOMKEY", "INFO", "PING"][rng.gen_range(0..5)])],
+        36 => vec![b("COMMAND"), gen::pick(rng, &["COUNT", "DOCS", "INFO", "BOGUS"])],
+        37 => vec![b("CLIENT"), gen::pick(rng, &["ID", "GETNAME", "INFO", "LIST", "BOGUS"])],
         0 => vec![b("SETBIT"), k, gen::pick(rng, &["0", "7", "100", "-1", "4294967296", "abc"]), gen::pick(rng, &["0", "1", "2", "x"])],
         1 => vec![b("GETBIT"), k, gen::pick(rng, &["0", "7", "-1", "abc"])],
         2 => vec![b("SORT"), k],
